@@ -24,6 +24,7 @@ The code facts (`Flags`) come from LinVerif.Generated.C10.
 import LinVerif.Util.Proto
 import LinVerif.Model.TagFilter
 import LinVerif.Model.TagFilterHeap
+import LinVerif.Model.TagFilterPlan
 import LinVerif.Generated.C10
 import LinVerif.Generated.C10Ops
 
@@ -305,6 +306,27 @@ def step (d : DSt) (ws : List String) : DSt × String :=
       else
         -- series filtering on bitmap OBJECTS (in-place and/or/not); `memoNow` from the regenerated facts
         match leafQueryHeap flags memoNow (matcherOf d.rx) d.st m keys c with
+        | .error e => (d, showErr e)
+        | .ok r =>
+          let g := match r.groups with
+            | none => "-"
+            | some (.error e) => "g" ++ showErr e
+            | some (.ok gs) => showGroups gs
+          (d, s!"ok s={showIds (sortDedup r.series)} g={g}")
+    | _, _, _ => (d, "bad-op")
+  | "qplan" :: m :: gb :: cond =>
+    -- the leaf query as the stages run it: the two Plan() functions choose the operators (round 12);
+    -- condition `-` = no WHERE clause (metric-all-series branch)
+    let pc : Option (Option Expr) :=
+      if cond = ["-"] then some none
+      else match parseCond (cond.length + 1) cond with
+        | some (c, []) => some (some c)
+        | _ => none
+    match unhex m, (if gb = "-" then some [] else (gb.splitOn ",").mapM unhex), pc with
+    | some m, some keys, some c =>
+      if (match c with | some e => (rxPatterns e).any (fun p => (Map.lookup d.rx p).isNone) | none => false) then (d, "bad-op")
+      else
+        match leafPlan flags memoNow (matcherOf d.rx) d.st m keys c with
         | .error e => (d, showErr e)
         | .ok r =>
           let g := match r.groups with
